@@ -434,3 +434,35 @@ pub fn concurrent(rep: &mut Report) {
     rep.bounds["concurrent"] = json!({"threads": 8, "rounds": 6, "operations": ops.len(), "schedules": "free-running (sampled, not enumerated)"});
     rep.absorb(t);
 }
+
+/// Thread life cycle: parsing from the destructor of a thread-local while the thread exits.
+pub fn at_thread_exit(rep: &mut Report) {
+    use json_syntax::{Parse, Value};
+    let docs = ["{\"key\":[\"a-string-longer-than-sixteen-bytes\",1.5e3,null]}", "[1,", "\"\\uD800\""];
+    let mut t = Tally::new();
+    for doc in docs {
+        for hook_first in [true, false] {
+            for warm in [true, false] {
+                t.evals += 1;
+                let want = str_entry(doc, STRICT);
+                let got = explore::run_at_thread_exit(
+                    hook_first,
+                    move || {
+                        if warm {
+                            let _ = Value::parse_str("{\"w\":[\"warm\"]}");
+                            let _ = Value::parse_slice(b"[\"x");
+                        }
+                    },
+                    move || (str_entry(doc, STRICT), slice_entry(doc.as_bytes(), STRICT)),
+                );
+                match got {
+                    Ok((a, b)) if a == want && b == want => {}
+                    other => t.violation("", format!("parsing {doc} from a thread-local destructor at thread exit gives {:?}", other.map(|(a, b)| (a.brief(), b.brief()))), json!({"kind": "thread-exit", "document": doc, "hook_first": hook_first, "warm": warm})),
+                }
+            }
+        }
+    }
+    t.outcome("parsing at thread exit");
+    rep.bounds["thread-exit"] = json!({"documents": docs.len(), "hook_order": 2, "thread_had_parsed": 2});
+    rep.absorb(t);
+}
